@@ -98,8 +98,47 @@ theorem MdOK_attachMeta {cfg : Cfg} {m form : Val} {nks nvs : List Val} (ht : fo
 structure Good (cfg : Cfg) (d : Nat) (v v0 : Val) : Prop where
   er : eraseCache v = eraseCache v0
   ok : VOK cfg d v
+  ok0 : VOK cfg d v0
   md : MdOK cfg v
   md0 : MdOK cfg v0
+
+theorem Good.weaken {cfg : Cfg} {d : Nat} {v v0 : Val} (h : Good cfg (d + 1) v v0) : Good cfg d v v0 :=
+  ⟨h.er, h.ok.weaken, h.ok0.weaken, h.md, h.md0⟩
+
+/-- the header replacement of `edn_read_tagged` (the result of a handler gets the range of the
+    tagged form) -/
+theorem Good.setRange {cfg : Cfg} {d : Nat} {v v0 : Val} (s e : Nat) (h : Good cfg d v v0) :
+    Good cfg d (v.setHdr { v.hdr with s := s, e := e }) (v0.setHdr { v0.hdr with s := s, e := e }) := by
+  refine ⟨?_, VOK_setHdr _ rfl h.ok, VOK_setHdr _ rfl h.ok0, MdOK_setHdr _ h.md, MdOK_setHdr _ h.md0⟩
+  have hh := congrArg Val.hdr h.er
+  rw [erase_hdr, erase_hdr] at hh
+  have e2 : v.hdr.synth = v0.hdr.synth := by have := congrArg Hdr.synth hh; exact this
+  rw [erase_setHdr, erase_setHdr, h.er]
+  show (eraseCache v0).setHdr ⟨s, e, 0, v.hdr.synth⟩ = (eraseCache v0).setHdr ⟨s, e, 0, v0.hdr.synth⟩
+  rw [e2]
+
+/-- source range of two values that differ in cache cells only -/
+theorem range_of_erase {v v0 : Val} (h : eraseCache v = eraseCache v0) : v.hdr.s = v0.hdr.s ∧ v.hdr.e = v0.hdr.e := by
+  have hh := congrArg Val.hdr h
+  rw [erase_hdr, erase_hdr] at hh
+  exact ⟨by have := congrArg Hdr.s hh; exact this, by have := congrArg Hdr.e hh; exact this⟩
+
+/-- a handler that does not look at cache cells and returns operands of the value algebra: on
+    arguments that differ in cache cells only it gives up on both or returns results that differ
+    in cache cells only (and are well-formed with valid caches) -/
+def HandlerOK (cfg : Cfg) (h : Handler) : Prop :=
+  ∀ (d : Nat) (v v0 : Val), Good cfg (d + 1) v v0 →
+    match h.run v, h.run v0 with
+    | none, none => True
+    | some r, some r0 => Good cfg d r r0
+    | _, _ => False
+
+/-- every handler of the registry (if there is one) is such a handler -/
+def RegistryOK (cfg : Cfg) (opts : Opts) : Prop :=
+  ∀ reg, opts.registry = some reg → ∀ tag h, reg tag = some h → HandlerOK cfg h
+
+theorem RegistryOK_of_none {cfg : Cfg} {opts : Opts} (h : opts.registry = none) : RegistryOK cfg opts := by
+  intro reg e; rw [h] at e; cases e
 
 /-- result under an arbitrary oracle against the fault-free result at nesting depth `d`: a value
     is matched by a value that differs in cache cells only; "closer" by "closer"; the end of input
@@ -218,7 +257,7 @@ theorem RelF_leaf {x : ACtx} {r : Res × ASt} {a : ASt} {r0 : Res} {d : Nat} (h 
   · rw [e]
     cases r0 with
     | ok v st' =>
-      exact ⟨v, rfl, rfl, VOK_of_freshLeaf hfl hd, MdOK_of_none hmd, MdOK_of_none hmd⟩
+      exact ⟨v, rfl, rfl, VOK_of_freshLeaf hfl hd, VOK_of_freshLeaf hfl hd, MdOK_of_none hmd, MdOK_of_none hmd⟩
     | closer st' => rfl
     | err e st' => exact RelF_nt hnt.1 hnt.2
   · exact RelF_err e
